@@ -173,6 +173,8 @@ for _p in _ALL:
                                                  'allowable_flags': 'permitted', 'root_hash': 'committed_root',
                                                  'loop_def': 'loop_body', 'difference': 'ahead_by',
                                                  'pubkey_or_sig': 'next_item', 'n_copies': 'howmany'})})
+    VARIANTS.append({'id': f'{_p.lower()}-p-guards-as-if-raise', 'prop': _p, 'kind': 'preserve', 'edits': [],
+                     'transform': ('guards-to-if', [F, C])})
     VARIANTS.append({'id': f'{_p.lower()}-p-rename-vm-params', 'prop': _p, 'kind': 'preserve', 'edits': [],
                      'transform': ('rename', F, {'stack': 'stk', 'cache': 'regs', 'sig_flag': 'sflag', 'constraint': 'bound',
                                                  'n_items': 'how_many', 'skey_seed': 'seed_bytes'})})
